@@ -208,6 +208,15 @@ def run_grid(ctx, desc, data, theta, feats):
         td = td.chunk({"col": 1})
     tdkw = {} if omit else {"target_data": td}
     keep = (data.copy(), theta.copy(), np.array(np.asarray(target), float))
+    if (not omit) and desc.get("dseed", desc.get("seed", 0)) % 2 == 1:
+        # the Grid has served before, for another target_data of the same name, dimensions and shape (the next time step):
+        # every transform is computed from the target_data it is given
+        try:
+            other = (td * 2 + 1).rename(td.name)
+            with dask.config.set(scheduler=desc["dask"] or "synchronous"):
+                g.transform(da, "Z", target, method=method, mask_edges=mask, bypass_checks=bypass, target_data=other, **kw).compute()
+        except Exception:
+            ctx.count("warm_up_call_raised")
     try:
         with dask.config.set(scheduler=desc["dask"] or "synchronous"):
             r = g.transform(da, "Z", target, method=method, mask_edges=mask, bypass_checks=bypass, **tdkw, **kw)
